@@ -2338,7 +2338,7 @@ fn audit() -> serde_json::Value {
     json!([
       {"class": 1, "topic": "entry paths / command variants never driven",
        "covered": "from_resp, from_resp_zero_copy, redis.pcall AND redis.call (third twin) for every frame; command names, sub-commands and option words are ENUMERATED FROM THE SOURCE the binary was built against (match arms of parser.rs / commands.rs / parse_lua_command_bytes) and checked against the generator shapes, the model's table (TN op) and the translator table (LT ops): a new arm breaks the check (C16:coverage:command-not-driven / keyword-not-driven / C16:source:*); non-bulk frame elements and non-array values (oracle); Lua-side argument kinds of redis.call (string / integer / float / boolean / nil / table: LA ops); EVAL and EVALSHA through both RESP parsers and the executor, SCRIPT LOAD / EXISTS / FLUSH, shared script cache, EVAL inside MULTI",
-       "open": "Command::BatchSet / BatchGet are internal (no parser arm); redis.error_reply / status_reply / sha1hex / redis.log are not implemented by the code (only call and pcall exist) — nothing to drive"},
+       "open": "Command::BatchSet / BatchGet are internal (no parser arm); redis.error_reply / status_reply / sha1hex / redis.log are not implemented by the code (only call and pcall exist) — nothing to drive; since session 4 the fields of the `redis` table are enumerated at run time (C16:coverage:redis-table-field-not-driven:<name> when one appears)"},
       {"class": 2, "topic": "input alphabet",
        "covered": "every argument position of every translator arm incl. variadic tails (2nd member, 2nd field/value pair, 2nd key) with non-UTF-8, truncated UTF-8, empty, 23/24-byte (SDS inline limit) values; 1 MiB arguments and 300-argument frames (oracle only); keys with spaces, empty, non-UTF-8; every keyword and command name in upper / lower / mixed case and with each of the 17 non-ASCII characters whose upper case contains an ASCII letter, in every position; cased non-ASCII letters (é ω ǆ ñ ü å) in names, keywords and arguments on the three real paths (oracle only); multi-field HSET / HDEL, multi-member SADD / ZADD",
        "open": "cased non-ASCII letters other than the 17 special ones are outside the Lean model (identity there): compared between the three real paths only"},
@@ -2359,7 +2359,10 @@ fn audit() -> serde_json::Value {
       {"class": 11, "topic": "harness fragility", "covered": "the source files are read from the tree the binary was built against (path taken from harness/Cargo.toml at compile time, not a hard-coded /repo); a failed source scan is itself a violation (C16:coverage:source-scan-failed); duplicate frames are skipped, not fatal", "open": ""},
       {"class": "session-3", "topic": "extensions (task B) against the same classes",
        "covered": "1: every match arm of the three grammars is TRANSLATED into a shape descriptor and compared with the model's row and with the other RESP parser (a new arm / option arm / guard / literal is a table diff even when no generated frame reaches it); multi-statement scripts (redis.call / redis.pcall mixed, refused / unknown / bad-argument / empty statements, KEYS / ARGV references, nested return tables) generated from the modelled script language. 3 and 5: the integer literals of a differing descriptor and of the arm's conditions (arity bounds, capacity thresholds of extra guards) drive a search with element counts just below / at / above each. 7: effects of earlier statements after a raising one, statements after it. 9: the number of completed statements of a script (trace markers), the exact reply of an EVAL that ends in a raised error (code-word rule), per-field source descriptors incl. every condition and literal of every arm. 10: a nil inside the reply of a translator command has its own signature (the model proves there is none). 11: unread source syntax is `?` = reported unless reviewed (C16:source:shape-not-recognised), too few rows = C16:source:shape-scan-failed; the embedded copy of the model's shape table is compared with the live model on every run",
-       "open": "conditions of the finishing checks (`conds`) have no model counterpart: compared between the two RESP parsers only; Lua scripts outside the modelled shape (loops, tostring, cjson …) are not generated"}
+       "open": "conditions of the finishing checks (`conds`) have no model counterpart: compared between the two RESP parsers only; Lua scripts outside the modelled shape (loops, tostring, cjson …) are not generated"},
+      {"class": "session-4", "topic": "tables regenerated from the source per run; conversions for every reply; float arguments; harmless rewrites",
+       "covered": "1: the translator's rows are written as a Lean file on every run (GrammarSrcGen.lean) and elaborated by ./check: zcRows = respRows, regenerated tables = normal form of the hand-written ones (proved at build time to describe them), theorems of Props/C16Src.lean instantiated on them — a changed descriptor refutes a NAMED theorem; fields of the `redis` table enumerated by a script. 2: a Lua FLOAT of any bit pattern as a redis.call argument (LF ops: binade boundaries ± 1 ulp, subnormals, 2^53 ± 2, powers of ten, ties, random) with a lossless-ness oracle. 9: table shapes Redis documents an answer for ({ok=,err=}, named fields next to the array part, holes, floats, nesting, booleans) as oracle cases. 11 / harmless rewrites: the translator reads roles, not names (renamed dispatch variable / argument array / closures / loop indices / word variables, an arm moved into a private helper, reordered arms, re-indentation, comments) and lists what it read through (shape.read_through); equivalent spellings of the arity guard; an untyped .parse() resolved from the constructor's field type in command.rs; command / keyword enumeration token-based instead of indentation-based; unread syntax is reported with the construct quoted",
+       "open": "a guard moved into a helper function (`if Self::too_few(elements, 2)`) is read as `no arity test + one more finishing literal` and reported as a shape difference, not read through; partial helpers (a helper that parses only the options) are not inlined"}
     ])
 }
 
